@@ -60,6 +60,24 @@ scen('regex-nonkept-seq', lambda o: mk.class_src('K', ['n = Int(1)', 'l = Data(u
      [b'\x02abXXXcXqYY\x01', b'\x01dX\x59\x02', b'\x00\x03'], [{}], tags=['regex-nonkept'])
 scen('described', lambda o: mk.class_src('K', ["length = Int(1).describe(AutoLength('a'))", 'a = Data(length)', 'z = Int(1)'], o),
      [b'\x02ab\x01', b'\x00\x02', b'\x01q\x03'], [{}, {'a': b'xyz'}, {'length': 1, 'a': b'k'}])
+HOPS = '''class Hops(object):
+    # a user's own descriptor with the optional after-parsing hook: the parser is one more hop, so the stored count drops by one
+    # right after parsing - once; nothing is due before packing
+    def __get__(self, instance, owner):
+        if instance is None:
+            return self
+        return getattr(instance, self.real_field_name)
+
+    def __set__(self, instance, val):
+        setattr(instance, self.real_field_name, val)
+
+    def sync_after_unpack(self, instance):
+        setattr(instance, self.real_field_name, getattr(instance, self.real_field_name) - 1)
+
+
+'''
+scen('user-descriptor', lambda o: HOPS + mk.class_src('K', ['hops = Int(1).describe(Hops())', "length = Int(1).describe(AutoLength('a'))", 'a = Data(length)', 'z = Int(1)'], o),
+     [b'\x07\x02ab\x01', b'\x03\x00\x02', b'\x09\x01q\x03'], [{}, {'hops': 5, 'a': b'xyz'}, {'length': 1, 'a': b'k'}])
 scen('two-levels', lambda o: SUB + mk.class_src('Mid', ['s = Ref(Sub)', 'm = Int(1)'], o) + mk.class_src('K', ['a = Ref(Sub)', 'b = Ref(Mid)', 'l = Ref(Sub).repeated(1)'], o),
      [b'\x00\x01A\x05\x00', b'\x01B\x00\x06\x01C', b'\x00\x00\x00\x00'], [{}])
 scen('default-list', lambda o: PT + mk.class_src('K', ['l = Int(1).repeated(2, default=[7, 8])', 'm = Ref(Pt).repeated(1, default=[Pt(x=4)])', 'z = Int(1)'], o),
